@@ -62,7 +62,16 @@ def int_bounds(leaf):
     return lo, hi
 
 
-def gen_leaf_type(rng, model_only=True, allow_cust=True):
+def gen_leaf_type(rng, model_only=True, allow_cust=True, simple_content=False):
+    """simple_content: the leaf is the base of an xs:simpleContent extension or an attribute type; Uuid is left out
+    there (its simple type lives in the spyne.io schema, which the generated schema then fails to resolve)"""
+    leaf = _gen_leaf_type(rng, model_only, allow_cust)
+    while simple_content and leaf['k'] == 'uuid':
+        leaf = _gen_leaf_type(rng, model_only, allow_cust)
+    return leaf
+
+
+def _gen_leaf_type(rng, model_only=True, allow_cust=True):
     r = rng.random()
     if r < 0.30:
         leaf = {'k': 'int', 'cls': rng.choice(INT_CLASSES if rng.random() < 0.6 else ['Integer']), 'cust': {}}
@@ -202,10 +211,10 @@ def gen_universe(rng, n_classes=5, max_fields=4, tns='urn:t', namespaces=('urn:t
     data_classes = set()
     for i in range(n_classes):
         if rng.random() < 0.15:                                   # an xs:simpleContent class
-            fields = [{'name': 'f%d_d' % i, 'ty': ('leaf', gen_leaf_type(rng, model_only, allow_cust=False)), 'min': 0, 'max': 1,
+            fields = [{'name': 'f%d_d' % i, 'ty': ('leaf', gen_leaf_type(rng, model_only, allow_cust=False, simple_content=True)), 'min': 0, 'max': 1,
                        'nillable': True, 'kind': 'data'}]
             for j in range(rng.randint(0, 2)):
-                fields.append({'name': 'f%d_%d' % (i, j), 'ty': ('leaf', gen_leaf_type(rng, model_only)), 'min': rng.choice([0, 0, 1]),
+                fields.append({'name': 'f%d_%d' % (i, j), 'ty': ('leaf', gen_leaf_type(rng, model_only, simple_content=True)), 'min': rng.choice([0, 0, 1]),
                                'max': 1, 'nillable': True, 'kind': 'attr'})
             rng.shuffle(fields)
             classes.append({'ns': rng.choice(namespaces), 'name': 'K%d' % i, 'parent': None, 'fields': fields})
